@@ -137,7 +137,7 @@ def r03b(ck, fb):
     early = [i for (i, j, st) in s.aggregates(r'std::result::Result$', 'Ok') if st['d'] == 0]
     # move_to_index_by_count count argument = end_index - index.log_index
     m = s.calls(r'LogInnerManager::move_to_index_by_count$')
-    ck.require(len(m) == 1, 'R03b', 'strip_log_to:recount-call', s.where(), 'no recount through move_to_index_by_count')
+    ck.require(len(m) >= 1, 'R03b', 'strip_log_to:recount-call', s.where(), 'no recount through move_to_index_by_count')
 
 
 def r03c(ck, fb):
@@ -188,7 +188,7 @@ def r03e(ck, fb):
     b = ck.main(c02.FS + 'delete_logs_from', 'R03e')
     if b:
         sd = util.sends(b, r'RaftLogManagerRequest$', 'StripLogToIndex')
-        ck.require(len(sd) == 1, 'R03e', 'delete_logs_from:send', b.where(), 'delete_logs_from does not send StripLogToIndex')
+        ck.require(len(sd) >= 1, 'R03e', 'delete_logs_from:send', b.where(), 'delete_logs_from does not send StripLogToIndex')
         if sd:
             a = sd[0][3]
             idx = a['fields'].index('end_index')
